@@ -355,6 +355,35 @@ func Sources(v ssa.Value) []ssa.Value {
 				visit(ta.X)
 				return
 			}
+			if call, ok := x.Tuple.(*ssa.Call); ok && !IsErrorType(x.Type()) {
+				// (error results stay opaque: which error a caller sees is decided by its own nil tests)
+				if f := TransparentCallee(call); f != nil {
+					for _, r := range Returns(f) {
+						if x.Index < len(r.Results) {
+							visit(r.Results[x.Index])
+						}
+					}
+					return
+				}
+			}
+			out = append(out, v)
+		case *ssa.Call:
+			if f := TransparentCallee(x); f != nil && f.Signature.Results().Len() == 1 && !IsErrorType(x.Type()) {
+				for _, r := range Returns(f) {
+					visit(r.Results[0])
+				}
+				return
+			}
+			out = append(out, v)
+		case *ssa.Parameter:
+			if sites, idx := transparentCallSites(x); len(sites) > 0 {
+				for _, site := range sites {
+					if idx < len(site.Call.Args) {
+						visit(site.Call.Args[idx])
+					}
+				}
+				return
+			}
 			out = append(out, v)
 		case *ssa.UnOp:
 			if x.Op == token.MUL {
@@ -878,6 +907,37 @@ func ValuesAt(v ssa.Value) []ssa.Value {
 			visit(x.X)
 		case *ssa.Convert:
 			visit(x.X)
+		case *ssa.Extract:
+			if call, ok := x.Tuple.(*ssa.Call); ok && !IsErrorType(x.Type()) {
+				// (error results stay opaque: which error a caller sees is decided by its own nil tests)
+				if f := TransparentCallee(call); f != nil {
+					for _, r := range Returns(f) {
+						if x.Index < len(r.Results) {
+							visit(r.Results[x.Index])
+						}
+					}
+					return
+				}
+			}
+			out = append(out, v)
+		case *ssa.Call:
+			if f := TransparentCallee(x); f != nil && f.Signature.Results().Len() == 1 && !IsErrorType(x.Type()) {
+				for _, r := range Returns(f) {
+					visit(r.Results[0])
+				}
+				return
+			}
+			out = append(out, v)
+		case *ssa.Parameter:
+			if sites, idx := transparentCallSites(x); len(sites) > 0 {
+				for _, site := range sites {
+					if idx < len(site.Call.Args) {
+						visit(site.Call.Args[idx])
+					}
+				}
+				return
+			}
+			out = append(out, v)
 		case *ssa.UnOp:
 			if x.Op == token.MUL {
 				if a, ok := x.X.(*ssa.Alloc); ok {
@@ -1201,5 +1261,92 @@ func PhiLeaves(v ssa.Value) []PhiLeaf {
 		}
 	}
 	walk(v, nil)
+	return out
+}
+
+var (
+	tcsProg  *Program
+	tcsIndex map[*ssa.Function][]*ssa.Call
+)
+
+// transparentCallSites: for a parameter of a function that is only ever entered through calls the analyses look
+// through (see TransparentCallee), the calls and the parameter's position among their arguments.
+func transparentCallSites(p *ssa.Parameter) ([]*ssa.Call, int) {
+	f := p.Parent()
+	if f == nil || currentProg == nil {
+		return nil, 0
+	}
+	if tcsProg != currentProg {
+		tcsProg, tcsIndex = currentProg, map[*ssa.Function][]*ssa.Call{}
+		for fn := range currentProg.AllFuncs {
+			Instrs(fn, func(in ssa.Instruction) {
+				if call, ok := in.(*ssa.Call); ok {
+					if callee := TransparentCallee(call); callee != nil {
+						tcsIndex[callee] = append(tcsIndex[callee], call)
+					}
+				}
+			})
+		}
+	}
+	sites := tcsIndex[f]
+	if len(sites) == 0 {
+		return nil, 0
+	}
+	for i, q := range f.Params {
+		if q == p {
+			return sites, i
+		}
+	}
+	return nil, 0
+}
+
+// VirtualCall describes how a call instruction of fn stands for a call of one of the wanted callees: directly, or
+// through a transparent callee (local closure / unseen helper) in which EVERY path from entry to a return passes
+// such a call (Must) or merely some instruction is such a call (!Must).
+type VirtualCall struct {
+	Site  ssa.Instruction    // the instruction in fn
+	Inner ssa.CallInstruction // the real call (== Site when direct)
+	Via   *ssa.Function       // nil when direct
+	Must  bool
+}
+
+// CallsToDeep lists the calls of fn to the named callees, looking through transparent callees (two levels).
+func CallsToDeep(fn *ssa.Function, names ...string) []VirtualCall {
+	return callsToDeep(fn, names, 0)
+}
+
+func callsToDeep(fn *ssa.Function, names []string, depth int) []VirtualCall {
+	var out []VirtualCall
+	for _, c := range CallsTo(fn, names...) {
+		out = append(out, VirtualCall{Site: c, Inner: c, Must: true})
+	}
+	if depth >= 2 {
+		return out
+	}
+	Instrs(fn, func(in ssa.Instruction) {
+		call, ok := in.(*ssa.Call)
+		if !ok {
+			return
+		}
+		h := TransparentCallee(call)
+		if h == nil || h == fn {
+			return
+		}
+		inner := callsToDeep(h, names, depth+1)
+		if len(inner) == 0 {
+			return
+		}
+		isInner := map[ssa.Instruction]bool{}
+		for _, ic := range inner {
+			if ic.Must {
+				isInner[ic.Site] = true
+			}
+		}
+		t, _ := PathQuery{
+			Target: func(x ssa.Instruction) bool { _, isRet := x.(*ssa.Return); return isRet },
+			Avoid:  func(x ssa.Instruction) bool { return isInner[x] },
+		}.From(h, nil)
+		out = append(out, VirtualCall{Site: call, Inner: inner[0].Inner, Via: h, Must: t == nil})
+	})
 	return out
 }
